@@ -277,9 +277,11 @@ def walk_binds(p):
         yield from walk_binds(f.get("pat"))
 
 
-def _empty_checks(body):
-    """[(loop depth)] of every `if <vec>.is_empty() / len()==0 / len()<1 { return Err }` in a parser body"""
+def _empty_checks(body, F=None):
+    """[(loop depth)] of every `if <vec>.is_empty() / len()==0 / len()<1 { return Err }` in a parser body (and in
+    the crate-local helpers of the same module it calls: a repetition parsed by a helper is checked there)"""
     out = []
+    seen = set()
 
     def is_empty_test(c):
         c = peel(c)
@@ -308,6 +310,13 @@ def _empty_checks(body):
                 any(x.get("k") == "ret" for x in walk(n["then"])) and \
                 any(x.get("k") == "call" and (x.get("f") or "").endswith("::Err") for x in walk(n["then"])):
             out.append(depth)
+        if k in ("call", "mcall") and F is not None:
+            f = callee(n)
+            hb = F.body_by_path.get(f)
+            if hb is not None and "body" in hb and not hb.get("exp") and f not in seen and len(seen) < 6 and \
+                    "::messages::" in "::" + f and (hb.get("output") or "").startswith("std::result::Result<"):
+                seen.add(f)
+                go(hb["body"], depth)
         d2 = depth + 1 if k in ("while", "for", "loop") else depth
         for kk, v in n.items():
             if kk in ("pat", "pats", "params"):
@@ -333,7 +342,7 @@ def min_occurrence(rep, tms):
         body = tm.F.body_by_path.get(tm.pfn, {}).get("body")
         if body is None:
             continue
-        cs = _empty_checks(body)
+        cs = _empty_checks(body, tm.F)
         if cs:
             have[tm.name] = cs
     for t in sorted(MIN_CHECKS):
